@@ -1,7 +1,7 @@
 //! Case execution: generic op interpreter, scheduler loop, owner phase, kind dispatch.
 
 use crate::alloc::{self, set_track};
-use crate::case::{Adapt, Case, Op, OpKind, Owner, Src, NSLOTS};
+use crate::case::{Adapt, Case, Op, OpKind, Owner, Src, Take, NSLOTS};
 use crate::elem::{CElem, Elem, Payload, Probe, ProbeCore, RefProbe};
 use crate::rt::{self, AbortToken, ClonePanic, ClosurePanic, ProbePanic};
 use crate::tlog;
@@ -104,23 +104,36 @@ fn slot_of<I>(slots: &[OnceLock<I>], k: usize) -> &I {
 
 /// Consumes up to `k` values of a chunk (recording and forgetting each one right after it is
 /// pulled), drops the chunk iterator, and returns the `ret chunk …` line.
-fn consume_chunk<T, V>(begin: usize, mut values: V, k: Option<usize>) -> String
+fn consume_chunk<T, V>(begin: usize, mut values: V, k: Take) -> String
 where
     T: Payload,
     V: ExactSizeIterator<Item = T>,
 {
     let a = values.len();
     let mut got: Vec<u64> = untracked(Vec::new);
-    let mut pulled = 0usize;
-    while k.map_or(true, |k| pulled < k) {
-        match values.next() {
-            Some(x) => {
-                let v = x.val();
-                x.forget();
-                untracked(|| got.push(v));
-                pulled += 1;
+    if let Take::Nth(j) = k {
+        // one call of `Iterator::nth`: the iterator discards `j` elements itself and hands out the next
+        if let Some(x) = values.nth(j) {
+            let v = x.val();
+            x.forget();
+            untracked(|| got.push(v));
+        }
+    } else {
+        let lim = match k {
+            Take::First(k) => Some(k),
+            _ => None,
+        };
+        let mut pulled = 0usize;
+        while lim.map_or(true, |k| pulled < k) {
+            match values.next() {
+                Some(x) => {
+                    let v = x.val();
+                    x.forget();
+                    untracked(|| got.push(v));
+                    pulled += 1;
+                }
+                None => break,
             }
-            None => break,
         }
     }
     let l = values.len();
